@@ -20,7 +20,8 @@ CONFIG = dict(
           "insert_function_call_on_unpickled_object(constant_args), insert_python_obj, ConstantOpcode.new, CLI "
           "--create and --inject); the built pickle is loaded by the stock unpickler with vp_sink.hit / "
           "vp_sink.ident as callee and the received argument must be an equal value of the same type, or the "
-          "build must have raised.  (b) every opcode class fickling can construct x representative arguments "
+          "build must have raised; list/dict values are also delivered as a history on one object: a call refused because "
+          "of one element, the same container repaired and changed in place, a second call.  (b) every opcode class fickling can construct x representative arguments "
           "(valid, boundary, wrong type): encode() either raises or pickletools reads it back as that opcode "
           "with that argument.  A case is one distinct (helper, repr(value)) or (opcode class, repr(arg)); "
           "non-trivial = the value is not a small ASCII string / small non-negative int."),
@@ -32,7 +33,7 @@ CONFIG = dict(
     min_nontrivial={"quick": 800, "thorough": 4000},
     nshards={"quick": 8, "thorough": 16},
     timeout={"quick": 600, "thorough": 3600},
-    required_counters=("values_delivered_or_refused", "opcode_encodings_checked"),
+    required_counters=("retries_checked", "values_delivered_or_refused", "opcode_encodings_checked"),
 )
 
 
@@ -101,9 +102,13 @@ HELPERS = ["insert_python_first", "insert_python_last", "append_python", "insert
            "insert_python_obj", "constant_new"]
 
 
-def deliver(f, helper, v):
-    """Build a pickle that hands v to a sink; returns bytes.  Raises = refusal."""
-    p = f.Pickled.load(BASE)
+def base_for(f, helper):
+    if helper in ("insert_python_obj", "constant_new"):
+        return f.Pickled.load(b"cvp_sink\nhit\n(" + b"\x8c\x03tag" + b"tR.")
+    return f.Pickled.load(BASE)
+
+
+def apply_helper(f, p, helper, v):
     if helper == "insert_python_first":
         p.insert_python("tag", v, module="vp_sink", attr="hit", run_first=True)
     elif helper == "insert_python_last":
@@ -114,17 +119,97 @@ def deliver(f, helper, v):
         p.insert_function_call_on_unpickled_object(
             "def vpc15(obj, *a):\n    import vp_sink\n    vp_sink.hit('tag', *a)\n    return obj\n", constant_args=[v])
     elif helper == "insert_python_obj":
-        p = f.Pickled.load(b"cvp_sink\nhit\n(" + b"\x8c\x03tag" + b"tR.")
-        # place v as second argument: before TUPLE
+        # place v as second argument: before the first TUPLE
         idx = [i for i, op in enumerate(p) if op.info.name == "TUPLE"][0]
         p.insert_python_obj(idx, v)
     elif helper == "constant_new":
-        p = f.Pickled.load(b"cvp_sink\nhit\n(" + b"\x8c\x03tag" + b"tR.")
         idx = [i for i, op in enumerate(p) if op.info.name == "TUPLE"][0]
         p.insert(idx, f.ConstantOpcode.new(v))
     else:
         raise ValueError(helper)
+
+
+def deliver(f, helper, v):
+    """Build a pickle that hands v to a sink; returns bytes.  Raises = refusal."""
+    p = base_for(f, helper)
+    apply_helper(f, p, helper, v)
     return p.dumps()
+
+
+def _containers(v, out=None):
+    out = [] if out is None else out
+    if isinstance(v, list):
+        out.append(v)
+        for x in v:
+            _containers(x, out)
+    elif isinstance(v, dict):
+        out.append(v)
+        for x in v.values():
+            _containers(x, out)
+    return out
+
+
+def check_retry(ctx, f, helper, v):
+    """History on one Pickled object and one (mutable) argument object: a call that is refused because of
+    one element, the caller repairs the *same* container in place and changes other contents, calls again.
+    What arrives must be the value as it was at the second call."""
+    import copy
+    agg = ctx.agg
+    if not isinstance(v, (list, dict)):
+        return
+    key = h(("retry|" + helper + "|" + repr(ckey(v))).encode("utf-8", "surrogatepass"))
+    if not agg.case(key, True, {"helper": helper, "value": repr(v)[:80], "kind": "retry:" + kind(v)}):
+        return
+    w1 = copy.deepcopy(v)
+    if isinstance(w1, list):
+        w1.append({1, 2})
+    else:
+        w1["vp-bad"] = {1, 2}
+    p = base_for(f, helper)
+    w = {"helper": helper, "value_repr": repr(v)[:400], "kind": "retry:" + kind(v)}
+    try:
+        apply_helper(f, p, helper, w1)
+        agg.count("retry_first_call_not_refused")
+        return
+    except RecursionError:
+        return
+    except Exception:
+        pass
+    # repair in place, and change what the nested containers hold
+    if isinstance(w1, list):
+        w1.pop()
+    else:
+        del w1["vp-bad"]
+    for c in _containers(w1):
+        if isinstance(c, list):
+            c.append("changed-before-retry")
+        else:
+            c["changed-before-retry"] = 1
+    want = copy.deepcopy(w1)
+    try:
+        apply_helper(f, p, helper, w1)
+        data = p.dumps()
+    except RecursionError:
+        return
+    except Exception as e:
+        agg.hist("refusals", f"retry:{kind(v)}:{type(e).__name__}")
+        return
+    w["hex"] = data.hex()[:1200]
+    try:
+        hits = load_and_get(data)
+    except Exception as e:
+        agg.violation(f"retry-built-pickle-does-not-load:{helper}",
+                      f"after a refused call the repaired call built a pickle the stock unpickler rejects: {type(e).__name__}: {str(e)[:100]}", w)
+        return
+    agg.count("retries_checked")
+    if len(hits) != 1 or len(hits[0][1]) != 2:
+        agg.violation(f"retry-argument-not-delivered:{helper}", f"sink received {hits!r}"[:300], w)
+        return
+    got = hits[0][1][1]
+    if ckey(got) != ckey(want):
+        agg.violation(f"retry-silently-altered:{helper}",
+                      f"refused call, container repaired and changed in place, second call: asked to pass {want!r}, "
+                      f"the unpickling process received {got!r}"[:400], dict(w, received=repr(got)[:300]))
 
 
 def load_and_get(data):
@@ -396,6 +481,8 @@ def run_shard(ctx):
             i += 1
             if i % ctx.nshards == ctx.shard:
                 check_value(ctx, f, helper, v)
+                if helper in ("insert_python_first", "insert_python_last", "insert_python_obj"):
+                    check_retry(ctx, f, helper, v)
     for name in sorted(f.OPCODES_BY_NAME):
         for arg in opcode_args(name):
             i += 1
